@@ -220,43 +220,10 @@ const RT: &str = "## [trust-runtime][debug] ";
 const MARKS: [&str; 3] = ["<- {", "-> {", "## [trust-debug]"];
 
 /// The runtime writes a trace line with three write() calls (prefix, message, newline) while the
-/// adapter's transcript lines arrive in one write(): a transcript line can land inside a runtime
-/// line.  Undo that: returns logical lines in file order (the embedded line first: the runtime
-/// line's critical section was still open when it was written).
-fn logical_lines(text: &str) -> Vec<String> {
-    let raw: Vec<&str> = text.split('\n').collect();
-    let mut out = Vec::new();
-    let mut i = 0;
-    while i < raw.len() {
-        let l = raw[i];
-        i += 1;
-        if let Some(rest) = l.strip_prefix(RT) {
-            if let Some(pos) = MARKS.iter().filter_map(|m| rest.find(m)).min() {
-                let (msg, emb) = rest.split_at(pos);
-                out.push(emb.to_string());
-                if msg.is_empty() {
-                    // prefix | embedded line | message \n
-                    if i < raw.len() {
-                        out.push(format!("{RT}{}", raw[i]));
-                        i += 1;
-                    }
-                } else {
-                    // prefix message | embedded line | \n
-                    out.push(format!("{RT}{msg}"));
-                    if i < raw.len() && raw[i].is_empty() {
-                        i += 1;
-                    }
-                }
-                continue;
-            }
-        }
-        if !l.is_empty() {
-            out.push(l.to_string());
-        }
-    }
-    out
-}
-
+/// adapter's transcript lines arrive in one write(): transcript lines can land inside a runtime
+/// line ("prefix | lines | message" or "prefix message | lines | newline").  `Transcript::raw_line`
+/// undoes that; the embedded lines come first (the runtime line's critical section was still open
+/// when they were written).
 fn field<'a>(line: &'a str, key: &str) -> Option<&'a str> {
     let i = line.find(&format!("{key}="))? + key.len() + 1;
     Some(line[i..].split(' ').next().unwrap())
@@ -282,6 +249,9 @@ struct Transcript {
     offset: usize,   // bytes consumed (up to the last complete line)
     events: Vec<J>,  // in file order
     hook_waiting: bool,
+    await_msg: bool, // a runtime prefix was seen whose message has not arrived yet
+    mode_paused: bool,  // DebugControl mode as of the last logged action / stop
+    resume_due: bool,   // a resuming action was applied while the hook waited and the hook has not reacted yet
     in_hook_gen: i64, // generation of the last hook.pause.enter (-1 none) until its stop line
     n_stop: usize,
     n_recv: usize,
@@ -297,33 +267,47 @@ impl Transcript {
             return;
         }
         let new = &bytes[self.offset..];
-        // only complete lines; a runtime line split by an embedded line needs its tail too, so stop
-        // before the last newline-terminated line that begins a split (handled by re-reading later)
         let Some(last_nl) = new.iter().rposition(|b| *b == b'\n') else { return };
-        let chunk = String::from_utf8_lossy(&new[..=last_nl]).to_string();
-        // do not cut between a split runtime line and its tail: if the chunk's last logical unit is
-        // a runtime prefix with an embedded line, wait for more input
-        let last_line = chunk[..chunk.len() - 1].rsplit('\n').next().unwrap_or("");
-        if let Some(rest) = last_line.strip_prefix(RT) {
-            if MARKS.iter().any(|m| rest.contains(m)) {
-                // consume everything before that line only
-                let cut = chunk.len() - 1 - last_line.len();
-                if cut == 0 {
-                    return;
+        let chunk = String::from_utf8_lossy(&new[..last_nl]).to_string();
+        self.offset += last_nl + 1;
+        for l in chunk.split('\n') {
+            self.raw_line(l);
+        }
+    }
+
+    fn raw_line(&mut self, l: &str) {
+        let marked = |t: &str| MARKS.iter().any(|m| t.starts_with(m));
+        if self.await_msg {
+            if marked(l) {
+                self.line(l);
+            } else {
+                self.await_msg = false;
+                // the message may again be followed by embedded lines before its newline
+                match MARKS.iter().filter_map(|m| l.find(m)).min() {
+                    Some(pos) => {
+                        let (msg, emb) = l.split_at(pos);
+                        self.line(emb);
+                        self.line(&format!("{RT}{msg}"));
+                    }
+                    None => self.line(&format!("{RT}{l}")),
                 }
-                let head = chunk[..cut].to_string();
-                self.offset += head.len();
-                self.consume(&head);
+            }
+            return;
+        }
+        if let Some(rest) = l.strip_prefix(RT) {
+            if let Some(pos) = MARKS.iter().filter_map(|m| rest.find(m)).min() {
+                let (msg, emb) = rest.split_at(pos);
+                self.line(emb);
+                if msg.is_empty() {
+                    self.await_msg = true;
+                } else {
+                    self.line(&format!("{RT}{msg}"));
+                }
                 return;
             }
         }
-        self.offset += chunk.len();
-        self.consume(&chunk);
-    }
-
-    fn consume(&mut self, text: &str) {
-        for line in logical_lines(text) {
-            self.line(&line);
+        if !l.is_empty() {
+            self.line(l);
         }
     }
 
@@ -335,6 +319,10 @@ impl Transcript {
                 let kind = act.split('(').next().unwrap_or("");
                 let th = if act.contains("Some(") { opt_num(&act[act.find("Some(").unwrap()..act.len() - 1]) } else { -1 };
                 let (mb, ma) = need("mode").split_once("->").unwrap_or(("", ""));
+                self.mode_paused = ma == "Paused";
+                if ma == "Running" && self.hook_waiting {
+                    self.resume_due = true;
+                }
                 self.events.push(json!({"a": "Act", "kind": kind, "th": th, "outcome": need("outcome"), "mb": mb, "ma": ma}));
             } else if m.starts_with("breakpoints.set") {
                 self.events.push(json!({"a": "SetBps", "gen": need("generation").parse::<i64>().unwrap_or(-1), "n": need("requested").parse::<i64>().unwrap_or(-1)}));
@@ -353,6 +341,8 @@ impl Transcript {
                 let loc = format!("{}:{}..{}", num("file_id: "), num("start: "), num("end: "));
                 let th = m.rfind("thread=").map(|i| opt_num(m[i + 7..].trim())).unwrap_or(-1);
                 self.n_stop += 1;
+                self.mode_paused = true;
+                self.resume_due = false;
                 self.events.push(json!({"a": "RtStop", "reason": need("reason"), "th": th, "gen": self.in_hook_gen, "line": loc_line(&loc)}));
                 self.in_hook_gen = -1;
             } else if m.starts_with("hook.wait") {
@@ -360,6 +350,7 @@ impl Transcript {
             } else if m.starts_with("hook.exit") {
                 if self.hook_waiting {
                     self.hook_waiting = false;
+                    self.resume_due = false;
                     self.events.push(json!({"a": "RtResume"}));
                 }
             }
@@ -427,6 +418,9 @@ struct Exec {
 
 impl Exec {
     fn view_stopped(&self) -> Option<i64> {
+        if self.batch.iter().any(|(c, _)| is_resume(c)) {
+            return None; // a resume is already on its way out: the client regards the debuggee as running
+        }
         let g = self.c.inbox.0.lock().unwrap();
         g.msgs.iter().enumerate().filter(|(i, m)| *i >= self.resume_at && m["event"] == "stopped").last().map(|(_, m)| m["body"]["threadId"].as_i64().unwrap_or(-1))
     }
@@ -498,7 +492,7 @@ impl Exec {
         let upto = self.c.seq;
         let n1 = self.c.seen();
         self.tr.feed(&self.log);
-        if !(self.tr.hook_waiting && self.tr.stops_settled()) {
+        if !(self.tr.hook_waiting && self.tr.mode_paused && !self.tr.resume_due && self.tr.stops_settled()) {
             return false;
         }
         let reads = self.tr.events.iter().filter(|e| e["a"] == "Read").count() as i64;
@@ -551,8 +545,12 @@ impl Exec {
         }
         match st["op"].as_str().unwrap_or("") {
             "req" => self.queue(st),
+            "seq" => {
+                for sub in st["steps"].as_array().cloned().unwrap_or_default() {
+                    self.step(&sub);
+                }
+            }
             "cond" => {
-                self.flush_batch();
                 let alt = if self.view_stopped().is_some() { &st["stopped"] } else { &st["running"] };
                 if alt.is_object() {
                     let alt = alt.clone();
@@ -722,14 +720,6 @@ fn run_one(script: &J, work: &str) -> Result<Vec<J>, String> {
     }
     x.c.kill();
     x.tr.feed(&log);
-    // flush a held-back tail (process is gone: whatever is there is final)
-    if let Ok(bytes) = std::fs::read(&log) {
-        if bytes.len() > x.tr.offset {
-            let tail = String::from_utf8_lossy(&bytes[x.tr.offset..]).to_string();
-            x.tr.offset = bytes.len();
-            x.tr.consume(&tail);
-        }
-    }
     if !x.tr.bad.is_empty() {
         return Err(format!("unparseable transcript line: {}", &x.tr.bad[0].chars().take(300).collect::<String>()));
     }
@@ -848,6 +838,10 @@ pub fn run(args: &[String]) -> i32 {
                 return;
             }
             let r = run_one(&scripts[i], &format!("{work}/w{w}"));
+            if r.is_err() {
+                let _ = std::fs::copy(format!("{work}/w{w}/transcript.log"), format!("{work}/error-{i}.transcript.log"));
+                let _ = std::fs::copy(format!("{work}/w{w}/stderr.txt"), format!("{work}/error-{i}.stderr.txt"));
+            }
             results.lock().unwrap()[i] = Some(r);
         }));
     }
